@@ -383,7 +383,9 @@ fn define_trait_impl(
         }
     }
 
-    for method_name in trait_method_names.iter() {
+    // Report missing methods in the order the trait declares them (`methods` is an
+    // IndexMap); iterating the HashSet would order the diagnostics by hash seed.
+    for method_name in trait_def.methods.keys() {
         if !implemented_methods.contains(method_name) {
             diagnostics.push(Diagnostic::new(
                 Stage::Typer,
